@@ -52,6 +52,9 @@ def handle(job):
   o["reuse"] = bool((seed // 2) % 2)
   if geo.get("eigh"):
     o["metrics"] = bool((seed // 4) % 2)
+  if not cfg["shard"] and seed % 6 == 5 and not geo.get("crank"):
+    # a sixth of the replicated jobs: the optimizer object has served a sibling tree before (reversed leaf shapes)
+    o["warm_shapes"] = [list(reversed(s_)) if len(s_) > 1 else [s_[0] + 2] if s_ else [] for s_ in shapes]
   crank = geo.get("crank", 0)        # compression_rank: roots are stored packed, compared by their denotation
   mism, worst = [], {"update": 0.0, "stats": 0.0, "roots": 0.0}
   try:
